@@ -123,6 +123,30 @@ def brute_force(run, lmax, tier):
                             fail("Wigner.Yindex", {"ell": l, "m": mp, "cfg": [ell_max, ell_min, mp_max]}, "free function", "differs")
                 if (w.Hsize, w.dsize, w.Dsize, w.Ysize) != (ix.WignerHsize(w.mp_max, ell_max), ix.WignerDsize(ell_min, w.mp_max, ell_max), ix.WignerDsize(ell_min, w.mp_max, ell_max), ix.Ysize(ell_min, ell_max)):
                     fail("Wigner.sizes", {"cfg": [ell_max, ell_min, mp_max]}, "free functions", "differs")
+    # large arguments: exact counts by direct big-integer summation of the documented loops (no closed form involved)
+    rng = run.rng
+    for _ in range(14 if tier == "quick" else 120):
+        ell_max = rng.choice([rng.randint(1000, 60000), rng.randint(150000, 400000), rng.randint(60000, 150000)])
+        ell_min = rng.choice([0, rng.randint(0, ell_max), max(ell_max - rng.randint(0, 50), 0)])
+        mp_max = rng.choice([0, 1, rng.randint(0, ell_max), ell_max, ell_max + 5, max(ell_min - 1, 0), ell_min + 1])
+        dsz = sum((2 * min(l, mp_max) + 1) * (2 * l + 1) for l in range(ell_min, ell_max + 1))
+        hsz = sum((l + 1) * (2 * min(l, mp_max) + 1) - min(l, mp_max) * (min(l, mp_max) + 1) for l in range(ell_max + 1))
+        ysz = sum(2 * l + 1 for l in range(ell_min, ell_max + 1))
+        inp = {"ell_min": ell_min, "mp_max": mp_max, "ell_max": ell_max}
+        run.gap_case("brute:large-args", (ell_min, mp_max, ell_max), "large")
+        for name, got, want in (("WignerDsize[jit]", int(ix.WignerDsize(ell_min, mp_max, ell_max)), dsz), ("WignerHsize[jit]", int(ix.WignerHsize(mp_max, ell_max)), hsz),
+                                ("Ysize[jit]", int(ix.Ysize(ell_min, ell_max)), ysz), ("WignerDsize[py]", int(ix.WignerDsize.py_func(ell_min, mp_max, ell_max)), dsz)):
+            if got != want:
+                fail(name, inp, want, got)
+        # index of the last element = size - 1 ; index of a random element of the last ell block
+        l = ell_max
+        w_ = min(l, mp_max)
+        mp = rng.randint(-w_, w_)
+        m = rng.randint(-l, l)
+        before = sum((2 * min(k, mp_max) + 1) * (2 * k + 1) for k in range(ell_min, l)) + (mp + w_) * (2 * l + 1) + (m + l)
+        got = int(ix.WignerDindex(l, mp, m, ell_min, mp_max))
+        if got != before:
+            fail("WignerDindex[jit]", {"ell": l, "mp": mp, "m": m, "ell_min": ell_min, "mp_max": mp_max}, before, got)
     # small helper orderings
     for nmax in range(0, 12):
         ref = [(n, m) for n in range(nmax + 1) for m in range(-n, n + 1)]
